@@ -459,6 +459,26 @@ fn run_sweep(c: &SweepCase) -> Outcome {
     o
 }
 
+#[derive(Clone, Debug, Hash, Serialize, Deserialize)]
+pub struct SeedCase {
+    /// index into the seed packet list
+    pub seed: usize,
+}
+
+/// The seed packets as they are: canonical ones are reproduced octet for octet.
+fn run_seed_identity(c: &SeedCase) -> Outcome {
+    let seeds = seed_packets_cached();
+    let (desc, tag, body) = &seeds[c.seed];
+    let mode = match codec::decode_packet(*tag, body) {
+        // (trust packets are documented to be dropped: contents are local-only)
+        Ok(d) if d.canonical && *tag != 12 => Identity::Full,
+        _ => Identity::None,
+    };
+    let mut o = Outcome::ok(if mode == Identity::Full { "canonical:reproduced" } else { "not-canonical:truthful" });
+    fidelity(*tag, body, &format!("{desc} (unmodified)"), mode, &mut o);
+    o
+}
+
 fn seed_packets_cached() -> &'static Vec<(String, u8, Vec<u8>)> {
     static S: std::sync::OnceLock<Vec<(String, u8, Vec<u8>)>> = std::sync::OnceLock::new();
     S.get_or_init(seed_packets)
@@ -860,6 +880,33 @@ fn run_shape(c: &ShapeCase) -> Outcome {
                             Err(e) => o.push("C05:composite:SignedSecretKey(locked):reimport-fails", format!("{kind:?}: {e}")),
                         }
                     }
+                    // ... and unlocked in place again, one packet at a time (the primary, then the
+                    // subkey as well): lengths follow, the certificate is the original one again
+                    let mut un = locked.clone();
+                    for step in 0..2 {
+                        let r = if step == 0 { un.primary_key.remove_password(&pw) } else { un.secret_subkeys[0].key.remove_password(&pw) };
+                        if let Err(e) = r {
+                            o.push("C05:composite:remove_password-fails", format!("{kind:?} step {step}: {e}"));
+                            break;
+                        }
+                        let name = if step == 0 { "SignedSecretKey(primary unlocked in place)" } else { "SignedSecretKey(unlocked in place)" };
+                        chk(name, un.write_len(), un.to_bytes(), &mut o);
+                        let mut v = Vec::new();
+                        let _ = un.secret_subkeys[0].key.to_writer_with_header(&mut v);
+                        if un.secret_subkeys[0].key.write_len_with_header() != v.len() {
+                            o.push("C05:composite:SecretSubkey(unlocked in place):write_len_with_header-differs", format!("{kind:?}"));
+                        }
+                        if let Ok(b) = un.to_bytes() {
+                            match SignedSecretKey::from_bytes(&b[..]) {
+                                Ok(k2) if k2 == un => {}
+                                Ok(_) => o.push(format!("C05:composite:{name}:reimport-differs"), format!("{kind:?}")),
+                                Err(e) => o.push(format!("C05:composite:{name}:reimport-fails"), format!("{kind:?}: {e}")),
+                            }
+                        }
+                    }
+                    if un != *cert {
+                        o.push("C05:composite:lock-then-unlock-is-not-the-original", format!("{kind:?}"));
+                    }
                 }
             }
             let public = cert.to_public_key();
@@ -930,6 +977,13 @@ pub fn check(ctx: &Ctx) {
     );
 
     let seeds = seed_packets_cached();
+    ctx.run_space(
+        "seed_packets_as_they_are",
+        true,
+        "every seed packet unmodified (library-made keys, signatures and message packets, model-made packets, key packets assembled for ECDSA / ECDH on every named curve): the fidelity obligations, and octet-for-octet reproduction when the independent decoder classifies the body as canonical",
+        (0..seeds.len()).map(|seed| SeedCase { seed }).collect::<Vec<_>>().into_par_iter(),
+        run_seed_identity,
+    );
     let mut sc = Vec::new();
     for (i, (_, tag, body)) in seeds.iter().enumerate() {
         let n = one_octet_fields(*tag, body).len();
@@ -977,6 +1031,7 @@ pub fn replay(space: &str, case: &Value) -> Option<Outcome> {
     match space {
         "fixture_corpus" => replay_as(case, run_fixture),
         "one_octet_field_sweeps" => replay_as(case, run_sweep),
+        "seed_packets_as_they_are" => replay_as(case, run_seed_identity),
         "length_classes_mutations_composites" => replay_as(case, run_shape),
         _ => None,
     }
